@@ -347,6 +347,12 @@ def contract_set_seq_num(I, args, kwargs):
     return None
 
 
+def itos_term(k):
+    """str(k) of an integer term."""
+    from pyvc.core import itos
+    return itos(_t(k))
+
+
 def hook(name):
     def h(I, args, kwargs):
         g = I.ctx.ghost
